@@ -438,7 +438,7 @@ func matchScenario(c *ctx, r *vk.Rand, fault string) {
 	} else if fault != "" {
 		p.faultKind = fault
 		p.faultAt = r.Range(1, total*3/4+1)
-		p.lateFor = 1600 * time.Millisecond
+		p.lateFor = 1900 * time.Millisecond
 	}
 	go p.serve()
 	defer close(p.stop)
